@@ -217,4 +217,455 @@ theorem joinInstF_congr (hok : H.Ok) (J J' : Ty → Ty → Ty) : ∀ (k : Nat) (
             · exact Or.inr ⟨argOf_mapTo hok hws hcs hbm hm h1, h2⟩
             · exact Or.inl ⟨h1, argOf_mapTo hok hws hcs hbm hm h2⟩
 
+
+/-- a class without generic superclasses -/
+def Plain (H : Hier) (a : Nat) : Prop :=
+  a ∈ H.classes ∧ H.generic a = false ∧ ∀ e ∈ H.classes, H.sup a e = none ∨ H.sup a e = some .na
+
+def PlainPair (H : Hier) (x y : Ty) : Prop := ∃ a a', x = .inst a ∧ y = .inst a' ∧ Plain H a ∧ Plain H a'
+
+theorem argOf_facts (hok : H.Ok) {t x : Ty} (hw : t.wf H = true) (h : ArgOf H t x) :
+    x.wf H = true ∧ (x.size < t.size ∨ (∃ c a, t = .inst c ∧ x = .inst a ∧ Plain H a)) := by
+  rcases h with h | ⟨c, d, a, hc, hd, hs, hx⟩
+  · have := arg_facts h hw
+    exact ⟨this.2.1, Or.inl this.1⟩
+  · subst hx
+    have hcm := (wf_cls hw hc).1
+    have hsh := hok.sup_shape c hcm d hd _ hs
+    simp only [Hier.shapeOk, Bool.and_eq_true, List.contains_iff_mem, Bool.not_eq_true'] at hsh
+    have hpl : Plain H a := ⟨hsh.1.2, hsh.2, hok.const_plain c hcm d hd a hs⟩
+    refine ⟨by simp [Ty.wf, hsh.1.2, hsh.2], ?_⟩
+    cases t <;> simp [Ty.cls] at hc
+    · subst hc; right; exact ⟨_, a, rfl, rfl, hpl⟩
+    · left; rename_i c0 x0; have := Ty.size_pos x0; simp [Ty.size]; omega
+
+theorem argOf_pair (hok : H.Ok) {t s x y : Ty} (hwt : t.wf H = true) (hws : s.wf H = true)
+    (hx : ArgOf H t x) (hy : ArgOf H s y) :
+    x.wf H = true ∧ y.wf H = true ∧ (x.size + y.size < t.size + s.size ∨ PlainPair H x y) := by
+  obtain ⟨wx, fx⟩ := argOf_facts hok hwt hx
+  obtain ⟨wy, fy⟩ := argOf_facts hok hws hy
+  refine ⟨wx, wy, ?_⟩
+  rcases fx with fx | ⟨c, a, ht, hxa, hpa⟩
+  · rcases fy with fy | ⟨c', a', hs, hya, hpa'⟩
+    · left; omega
+    · left; subst hs hya; simp [Ty.size] at *; omega
+  · rcases fy with fy | ⟨c', a', hs, hya, hpa'⟩
+    · left; subst ht hxa; simp [Ty.size] at *; omega
+    · right; exact ⟨a, a', hxa, hya, hpa, hpa'⟩
+
+theorem zipWith2_congr {f g : Ty → Ty → Ty} : ∀ {xs ys : List Ty},
+    (∀ x ∈ xs, ∀ y ∈ ys, f x y = g x y) → zipWith2 f xs ys = zipWith2 g xs ys
+  | [], _, _ => by simp [zipWith2]
+  | _ :: _, [], _ => by simp [zipWith2]
+  | x :: xs, y :: ys, h => by
+    simp only [zipWith2]
+    rw [h x (by simp) y (by simp), zipWith2_congr (fun a ha b hb => h a (by simp [ha]) b (by simp [hb]))]
+
+theorem makeUnion_wf {rr : List Ty} (h : ∀ x ∈ rr, x.wf H = true ∧ x.isUnion = false) :
+    (makeUnion rr).wf H = true := by
+  match rr, h with
+  | [], _ => simp [makeUnion, Ty.wf]
+  | [x], h => simpa [makeUnion] using (h x (by simp)).1
+  | x :: y :: zs, h =>
+    simp only [makeUnion, Ty.wf, Bool.and_eq_true, List.all_eq_true]
+    refine ⟨⟨wfL_iff.2 (fun t ht => (h t ht).1), ?_⟩, by simp⟩
+    intro t ht; simp [(h t ht).2]
+
+theorem simplify_wf (hok : H.Ok) (items : List Ty) (hw : wfL H items = true) :
+    (simplifyUnion H items).wf H = true := by
+  have hnu : ∀ x ∈ flattenL items, x.isUnion = false := fun x hx => flattenL_not_union items x hx
+  have hwf : ∀ x ∈ flattenL items, x.wf H = true := flattenL_wf items hw
+  unfold simplifyUnion
+  simp only
+  split
+  · rename_i t heq; exact hwf t (by rw [heq]; simp)
+  · have spec := (removeRedundant_spec (isProperSubtype H) (fun x => S_refl H true x) (flattenL items) (by
+      intro x hx y hy z hz h1 h2
+      have := trans_all hok _ true true x y z (Nat.le_refl _) ⟨Or.inl rfl, Or.inl rfl⟩ (hwf x hx) (hwf y hy) (hwf z hz) h1 h2
+      simpa [isProperSubtype_eq] using this)).1
+    exact makeUnion_wf (fun x hx => ⟨hwf x (spec x hx), hnu x (spec x hx)⟩)
+
+theorem tupleFallback_wf (hok : H.Ok) {ts : List Ty} (hw : (Ty.tuple ts).wf H = true) :
+    (tupleFallback H ts).wf H = true := by
+  simp only [tupleFallback, Ty.wf, Bool.and_eq_true, List.contains_iff_mem]
+  exact ⟨⟨hok.tup_mem, hok.tup_g⟩, simplify_wf hok ts (by simpa [Ty.wf] using hw)⟩
+
+
+theorem wf_lit {c v : Nat} (h : (Ty.lit c v).wf H = true) : (Ty.inst c).wf H = true := by
+  simpa [Ty.wf] using h
+
+theorem wf_typeType {x : Ty} (h : (Ty.typeType x).wf H = true) : x.wf H = true ∧ x.isUnion = false := by
+  simpa [Ty.wf] using h
+
+theorem joinInstances_congr (hok : H.Ok) (J J' : Ty → Ty → Ty) {t s : Ty} (hwt : t.wf H = true) (hws : s.wf H = true)
+    {B : Nat} (hB : t.size + s.size ≤ B)
+    (hJ : ∀ x y, x.wf H = true → y.wf H = true → (x.size + y.size < B ∨ PlainPair H x y) → J x y = J' x y) :
+    joinInstances H J t s = joinInstances H J' t s := by
+  unfold joinInstances
+  apply joinInstF_congr hok J J' _ t s hwt hws
+  intro x y hxy
+  rcases hxy with ⟨h1, h2⟩ | ⟨h1, h2⟩
+  · obtain ⟨wx, wy, hs⟩ := argOf_pair hok hwt hws h1 h2
+    exact hJ x y wx wy (hs.imp (fun h => by omega) id)
+  · obtain ⟨wx, wy, hs⟩ := argOf_pair hok hws hwt h1 h2
+    exact hJ x y wx wy (hs.imp (fun h => by omega) id)
+
+/-- locality of the join visitor -/
+theorem joinVisit_congr (hok : H.Ok) (J J' M M' : Ty → Ty → Ty) (s t : Ty)
+    (hws : s.wf H = true) (hwt : t.wf H = true)
+    (hJ : ∀ x y, x.wf H = true → y.wf H = true → (x.size + y.size < s.size + t.size ∨ PlainPair H x y) → J x y = J' x y)
+    (hM : ∀ x y, x.wf H = true → y.wf H = true → x.size + y.size < s.size + t.size → M x y = M' x y) :
+    joinVisit H J M s t = joinVisit H J' M' s t := by
+  have hfn := wf_fn hok
+  have hsp := Ty.size_pos s
+  have htp := Ty.size_pos t
+  -- instance on the right
+  have hinst : t.isInstance = true → joinVisitInstance H J s t = joinVisitInstance H J' s t := by
+    intro hti
+    unfold joinVisitInstance
+    cases s with
+    | never | none | union _ => rfl
+    | inst c => exact joinInstances_congr hok J J' hwt hws (by omega) hJ
+    | gen c x => exact joinInstances_congr hok J J' hwt hws (by omega) hJ
+    | callable as r =>
+      simp only
+      exact hJ _ _ hwt hfn (Or.inl (by simp [Ty.size]; omega))
+    | typeType y =>
+      simp only [joinVisitTypeType]
+      cases t <;> simp [Ty.isInstance] at hti <;> rfl
+    | tuple ss =>
+      simp only [joinVisitTuple]
+      cases t <;> simp [Ty.isInstance] at hti <;>
+        exact hJ _ _ hwt (tupleFallback_wf hok hws) (Or.inl (by have := tupleFallback_size H ss; omega))
+    | lit c v =>
+      simp only [joinVisitLiteral]
+      cases t <;> simp [Ty.isInstance] at hti <;>
+        exact hJ _ _ hwt (wf_lit hws) (Or.inl (by simp [Ty.size] <;> omega))
+  cases t with
+  | union _ | none | never => rfl
+  | inst c => exact hinst rfl
+  | gen c x => exact hinst rfl
+  | tuple ts =>
+    simp only [joinVisit, joinVisitTuple]
+    cases s with
+    | tuple ss =>
+      simp only
+      have hwss := wf_tuple hws
+      have hwts := wf_tuple hwt
+      split
+      · congr 1
+        apply zipWith2_congr
+        intro x hx y hy
+        have := size_le_sizeL hx; have := size_le_sizeL hy
+        exact hJ x y (hwts x hx) (hwss y hy) (Or.inl (by simp [Ty.size]; omega))
+      · split
+        · rfl
+        · split
+          · rfl
+          · have h1 := tupleFallback_size H ss
+            have h2 := tupleFallback_size H ts
+            exact joinInstances_congr hok J J' (tupleFallback_wf hok hws) (tupleFallback_wf hok hwt)
+              (B := (Ty.tuple ss).size + (Ty.tuple ts).size) (by omega) hJ
+    | never | none | union _ | inst _ | gen _ _ | callable _ _ | lit _ _ | typeType _ =>
+      exact hJ _ _ hws (tupleFallback_wf hok hwt) (Or.inl (by have := tupleFallback_size H ts; omega))
+  | callable bs ret =>
+    simp only [joinVisit, joinVisitCallable]
+    have hwb := wf_callable hwt
+    have hfb : ∀ s', s'.wf H = true → s'.size = s.size → J (.inst H.functionC) s' = J' (.inst H.functionC) s' := by
+      intro s' hw' hsz
+      exact hJ _ _ hfn hw' (Or.inl (by simp [Ty.size]; omega))
+    cases s with
+    | callable as ret' =>
+      simp only
+      have hwa := wf_callable hws
+      have hr : J ret ret' = J' ret ret' := hJ _ _ hwb.2 hwa.2 (Or.inl (by simp [Ty.size]; omega))
+      have hz : zipWith2 J bs as = zipWith2 J' bs as := by
+        apply zipWith2_congr
+        intro x hx y hy
+        have := size_le_sizeL hx; have := size_le_sizeL hy
+        exact hJ x y (hwb.1 x hx) (hwa.1 y hy) (Or.inl (by simp [Ty.size]; omega))
+      have hzm : zipWith2 M bs as = zipWith2 M' bs as := by
+        apply zipWith2_congr
+        intro x hx y hy
+        have := size_le_sizeL hx; have := size_le_sizeL hy
+        exact hM x y (hwb.1 x hx) (hwa.1 y hy) (by simp [Ty.size]; omega)
+      rw [hr, hz, hzm, hfb _ hws rfl]
+    | never | none | union _ | inst _ | gen _ _ | tuple _ | lit _ _ | typeType _ => exact hfb _ hws rfl
+  | lit c v =>
+    simp only [joinVisit, joinVisitLiteral]
+    cases s with
+    | lit c' v' =>
+      simp only
+      rw [hJ _ _ (wf_lit hws) (wf_lit hwt) (Or.inl (by simp [Ty.size]))]
+    | never | none | union _ | inst _ | gen _ _ | tuple _ | callable _ _ | typeType _ =>
+      exact hJ _ _ hws (wf_lit hwt) (Or.inl (by simp [Ty.size]))
+  | typeType y =>
+    simp only [joinVisit, joinVisitTypeType]
+    cases s with
+    | typeType x =>
+      simp only
+      rw [hJ _ _ (wf_typeType hwt).1 (wf_typeType hws).1 (Or.inl (by simp [Ty.size]; omega))]
+    | never | none | union _ | inst _ | gen _ _ | tuple _ | callable _ _ | lit _ _ => rfl
+
+
+theorem flatMap_congr' {α β} {f g : α → List β} {xs : List α} (h : ∀ x ∈ xs, f x = g x) :
+    xs.flatMap f = xs.flatMap g := by
+  induction xs with
+  | nil => rfl
+  | cons x xs ih =>
+    simp only [List.flatMap_cons]
+    rw [h x (by simp), ih (fun y hy => h y (by simp [hy]))]
+
+theorem meetVisitTuple_congr (M M' : Ty → Ty → Ty) (s t : Ty) (ts : List Ty)
+    (hws : s.wf H = true) (hwts : ∀ x ∈ ts, x.wf H = true) {B : Nat} (hB : s.size + (Ty.tuple ts).size ≤ B)
+    (hM : ∀ x y, x.wf H = true → y.wf H = true → x.size + y.size < B → M x y = M' x y) :
+    meetVisitTuple H M s t ts = meetVisitTuple H M' s t ts := by
+  unfold meetVisitTuple
+  cases s with
+  | tuple ss =>
+    simp only
+    have hwss := wf_tuple hws
+    split
+    · congr 1
+      apply zipWith2_congr
+      intro x hx y hy
+      have := size_le_sizeL hx; have := size_le_sizeL hy
+      exact hM x y (hwts x hx) (hwss y hy) (by simp [Ty.size] at hB; omega)
+    · rfl
+  | gen d y =>
+    simp only
+    split
+    · congr 1
+      apply map_congr'
+      intro x hx
+      have := size_le_sizeL hx
+      exact hM x y (hwts x hx) (wf_gen hws).2.2 (by simp [Ty.size] at hB; omega)
+    · rfl
+  | never | none | union _ | inst _ | callable _ _ | lit _ _ | typeType _ => rfl
+
+/-- locality of the meet visitor -/
+theorem meetVisit_congr (J J' M M' : Ty → Ty → Ty) (s t : Ty)
+    (hws : s.wf H = true) (hwt : t.wf H = true)
+    (hJ : ∀ x y, x.wf H = true → y.wf H = true → x.size + y.size < s.size + t.size → J x y = J' x y)
+    (hM : ∀ x y, x.wf H = true → y.wf H = true → x.size + y.size < s.size + t.size → M x y = M' x y) :
+    meetVisit H J M s t = meetVisit H J' M' s t := by
+  have hsp := Ty.size_pos s
+  have htp := Ty.size_pos t
+  have hinst : t.isInstance = true → meetVisitInstance H M s t = meetVisitInstance H M' s t := by
+    intro hti
+    unfold meetVisitInstance
+    split
+    · split
+      · split
+        · split
+          · rename_i c x c' y _ _ _
+            rw [hM x y (wf_gen hwt).2.2 (wf_gen hws).2.2 (by simp [Ty.size]; omega)]
+          · rfl
+        · rfl
+      · rfl
+    · cases s with
+      | typeType y =>
+        simp only [meetVisitTypeType]
+        cases t <;> simp [Ty.isInstance] at hti <;> rfl
+      | tuple ss =>
+        simp only
+        exact meetVisitTuple_congr M M' t _ ss hwt (wf_tuple hws) (by omega) hM
+      | never | none | union _ | inst _ | gen _ _ | callable _ _ | lit _ _ => rfl
+  cases t with
+  | none | never | lit _ _ => rfl
+  | inst c => exact hinst rfl
+  | gen c x => exact hinst rfl
+  | union ts =>
+    simp only [meetVisit]
+    have hwts := wfL_mem (wf_union hwt).1
+    cases s with
+    | union ss =>
+      simp only
+      have hwss := wfL_mem (wf_union hws).1
+      congr 1
+      apply flatMap_congr'
+      intro x hx
+      apply map_congr'
+      intro y hy
+      have := size_le_sizeL hx; have := size_le_sizeL hy
+      exact hM x y (hwts x hx) (hwss y hy) (by simp [Ty.size]; omega)
+    | never | none | inst _ | gen _ _ | tuple _ | callable _ _ | lit _ _ | typeType _ =>
+      simp only
+      congr 1
+      apply map_congr'
+      intro x hx
+      have := size_le_sizeL hx
+      exact hM x _ (hwts x hx) hws (by simp [Ty.size] at *; omega)
+  | tuple ts =>
+    simp only [meetVisit]
+    exact meetVisitTuple_congr M M' s _ ts hws (wf_tuple hwt) (Nat.le_refl _) hM
+  | callable bs ret =>
+    simp only [meetVisit, meetVisitCallable]
+    have hwb := wf_callable hwt
+    cases s with
+    | callable as ret' =>
+      simp only
+      have hwa := wf_callable hws
+      have hr : J ret ret' = J' ret ret' := hJ _ _ hwb.2 hwa.2 (by simp [Ty.size]; omega)
+      have hrm : M ret ret' = M' ret ret' := hM _ _ hwb.2 hwa.2 (by simp [Ty.size]; omega)
+      have hz : zipWith2 J bs as = zipWith2 J' bs as := by
+        apply zipWith2_congr
+        intro x hx y hy
+        have := size_le_sizeL hx; have := size_le_sizeL hy
+        exact hJ x y (hwb.1 x hx) (hwa.1 y hy) (by simp [Ty.size]; omega)
+      rw [hr, hrm, hz]
+    | never | none | union _ | inst _ | gen _ _ | tuple _ | lit _ _ | typeType _ => rfl
+  | typeType y =>
+    simp only [meetVisit, meetVisitTypeType]
+    cases s with
+    | typeType x =>
+      simp only
+      rw [hM _ _ (wf_typeType hwt).1 (wf_typeType hws).1 (by simp [Ty.size]; omega)]
+    | never | none | union _ | inst _ | gen _ _ | tuple _ | callable _ _ | lit _ _ => rfl
+
+
+theorem plain_wf {a : Nat} (h : Plain H a) : (Ty.inst a).wf H = true := by
+  simp [Ty.wf, h.1, h.2.1]
+
+/-- joining two instances of plain classes never consults the recursive calls -/
+theorem plain_join_indep (hok : H.Ok) (J J' M M' : Ty → Ty → Ty) {x y : Ty} (hp : PlainPair H x y) :
+    joinStep H J M x y = joinStep H J' M' x y := by
+  obtain ⟨a, a', hx, hy, pa, pa'⟩ := hp
+  subst hx hy
+  have hvac : ∀ (b : Nat), Plain H b → ∀ z, ¬ ArgOf H (.inst b) z := by
+    intro b pb z hz
+    rcases hz with hz | ⟨c, d, k, hc, hd, hs, _⟩
+    · simp [Ty.arg?] at hz
+    · simp [Ty.cls] at hc; subst hc
+      rcases pb.2.2 d hd with h | h <;> rw [h] at hs <;> simp at hs
+  simp only [joinStep, joinTruthiness, Ty.canBeTrue, Ty.canBeFalse, bne_self_eq_false, Bool.false_or,
+    Bool.false_eq_true, if_false, joinSwap, Ty.isUnion, Ty.isNone, Ty.isNever, Bool.false_and,
+    joinVisit, joinVisitInstance, joinInstances]
+  apply joinInstF_congr hok J J' _ _ _ (plain_wf pa') (plain_wf pa)
+  intro u v h
+  rcases h with ⟨h1, _⟩ | ⟨h1, _⟩
+  · exact absurd h1 (hvac a' pa' u)
+  · exact absurd h1 (hvac a pa u)
+
+theorem trueOrFalse_wf (hok : H.Ok) {t : Ty} (hw : t.wf H = true) : (trueOrFalse H t).wf H = true := by
+  cases t <;> simp only [trueOrFalse] <;> try exact hw
+  exact simplify_wf hok _ (wf_union hw).1
+
+theorem joinPrelude_facts (hok : H.Ok) {s t : Ty} (hws : s.wf H = true) (hwt : t.wf H = true) :
+    let st := joinSwap (joinTruthiness H s t).1 (joinTruthiness H s t).2
+    st.1.wf H = true ∧ st.2.wf H = true ∧ st.1.size + st.2.size ≤ s.size + t.size := by
+  have h1 : (joinTruthiness H s t).1.wf H = true ∧ (joinTruthiness H s t).2.wf H = true := by
+    unfold joinTruthiness
+    split
+    · exact ⟨trueOrFalse_wf hok hws, trueOrFalse_wf hok hwt⟩
+    · exact ⟨hws, hwt⟩
+  have h2 := joinTruthiness_size H s t
+  have h3 := joinSwap_size (joinTruthiness H s t).1 (joinTruthiness H s t).2
+  refine ⟨?_, ?_, by omega⟩
+  · unfold joinSwap; simp only; split <;> split <;> split <;> simp [h1.1, h1.2]
+  · unfold joinSwap; simp only; split <;> split <;> split <;> simp [h1.1, h1.2]
+
+theorem joinStep_congr (hok : H.Ok) (J J' M M' : Ty → Ty → Ty) (s t : Ty)
+    (hws : s.wf H = true) (hwt : t.wf H = true)
+    (hJ : ∀ x y, x.wf H = true → y.wf H = true → (x.size + y.size < s.size + t.size ∨ PlainPair H x y) → J x y = J' x y)
+    (hM : ∀ x y, x.wf H = true → y.wf H = true → x.size + y.size < s.size + t.size → M x y = M' x y) :
+    joinStep H J M s t = joinStep H J' M' s t := by
+  obtain ⟨w1, w2, hs⟩ := joinPrelude_facts hok hws hwt
+  simp only [joinStep]
+  apply joinVisit_congr hok J J' M M' _ _ w1 w2
+  · intro x y wx wy h
+    exact hJ x y wx wy (h.imp (fun h => by omega) id)
+  · intro x y wx wy h
+    exact hM x y wx wy (by omega)
+
+theorem meetStep_congr (J J' M M' : Ty → Ty → Ty) (s t : Ty)
+    (hws : s.wf H = true) (hwt : t.wf H = true)
+    (hJ : ∀ x y, x.wf H = true → y.wf H = true → x.size + y.size < s.size + t.size → J x y = J' x y)
+    (hM : ∀ x y, x.wf H = true → y.wf H = true → x.size + y.size < s.size + t.size → M x y = M' x y) :
+    meetStep H J M s t = meetStep H J' M' s t := by
+  simp only [meetStep]
+  split
+  · rfl
+  · split
+    · rfl
+    · split
+      · apply meetVisit_congr J J' M M' _ _ hwt hws
+        · intro x y wx wy h; exact hJ x y wx wy (by omega)
+        · intro x y wx wy h; exact hM x y wx wy (by omega)
+      · exact meetVisit_congr J J' M M' _ _ hws hwt hJ hM
+
+theorem plainPair_size {x y : Ty} (h : PlainPair H x y) : x.size + y.size = 2 := by
+  obtain ⟨a, a', hx, hy, _, _⟩ := h; subst hx hy; rfl
+
+theorem plainPair_wf {x y : Ty} (h : PlainPair H x y) : x.wf H = true ∧ y.wf H = true := by
+  obtain ⟨a, a', hx, hy, pa, pa'⟩ := h; subst hx hy; exact ⟨plain_wf pa, plain_wf pa'⟩
+
+/-- enough fuel: the results do not depend on the fuel -/
+theorem jmF_stable (hok : H.Ok) : ∀ (n m : Nat) (s t : Ty), s.wf H = true → t.wf H = true →
+    s.size + t.size ≤ n → s.size + t.size ≤ m →
+    joinF H n s t = joinF H m s t ∧ meetF H n s t = meetF H m s t := by
+  intro n
+  induction n with
+  | zero => intro m s t _ _ h; have := Ty.size_pos s; omega
+  | succ n ih =>
+    intro m s t hws hwt hn hm
+    cases m with
+    | zero => have := Ty.size_pos s; omega
+    | succ m =>
+      simp only [joinF, meetF]
+      constructor
+      · apply joinStep_congr hok _ _ _ _ s t hws hwt
+        · intro x y wx wy h
+          rcases h with h | h
+          · exact (ih m x y wx wy (by omega) (by omega)).1
+          · -- a plain pair: one more unfolding on both sides, which ignores the recursive calls
+            have hs2 := plainPair_size h
+            have hsp := Ty.size_pos s; have htp := Ty.size_pos t
+            obtain ⟨n', rfl⟩ : ∃ n', n = n' + 1 := ⟨n - 1, by omega⟩
+            obtain ⟨m', rfl⟩ : ∃ m', m = m' + 1 := ⟨m - 1, by omega⟩
+            simp only [joinF]
+            exact plain_join_indep hok _ _ _ _ h
+        · intro x y wx wy h
+          exact (ih m x y wx wy (by omega) (by omega)).2
+      · apply meetStep_congr _ _ _ _ s t hws hwt
+        · intro x y wx wy h
+          exact (ih m x y wx wy (by omega) (by omega)).1
+        · intro x y wx wy h
+          exact (ih m x y wx wy (by omega) (by omega)).2
+
+/-- the wrappers satisfy the step equations -/
+theorem join_unfold (hok : H.Ok) (s t : Ty) (hws : s.wf H = true) (hwt : t.wf H = true) :
+    join H s t = joinStep H (join H) (meet H) s t := by
+  unfold join jmFuel
+  have hsp := Ty.size_pos s; have htp := Ty.size_pos t
+  obtain ⟨k, hk⟩ : ∃ k, s.size + t.size = k + 1 := ⟨s.size + t.size - 1, by omega⟩
+  rw [hk]
+  simp only [joinF]
+  apply joinStep_congr hok _ _ _ _ s t hws hwt
+  · intro x y wx wy h
+    rcases h with h | h
+    · exact (jmF_stable hok k _ x y wx wy (by omega) (Nat.le_refl _)).1
+    · have hs2 := plainPair_size h
+      obtain ⟨k', rfl⟩ : ∃ k', k = k' + 1 := ⟨k - 1, by omega⟩
+      show joinF H (k' + 1) x y = joinF H (x.size + y.size) x y
+      rw [hs2]
+      simp only [joinF]
+      exact plain_join_indep hok _ _ _ _ h
+  · intro x y wx wy h
+    exact (jmF_stable hok k _ x y wx wy (by omega) (Nat.le_refl _)).2
+
+theorem meet_unfold (hok : H.Ok) (s t : Ty) (hws : s.wf H = true) (hwt : t.wf H = true) :
+    meet H s t = meetStep H (join H) (meet H) s t := by
+  unfold meet jmFuel
+  have hsp := Ty.size_pos s; have htp := Ty.size_pos t
+  obtain ⟨k, hk⟩ : ∃ k, s.size + t.size = k + 1 := ⟨s.size + t.size - 1, by omega⟩
+  rw [hk]
+  simp only [meetF]
+  apply meetStep_congr _ _ _ _ s t hws hwt
+  · intro x y wx wy h
+    exact (jmF_stable hok k _ x y wx wy (by omega) (Nat.le_refl _)).1
+  · intro x y wx wy h
+    exact (jmF_stable hok k _ x y wx wy (by omega) (Nat.le_refl _)).2
+
+
 end Types
